@@ -34,7 +34,7 @@ def run(ctx):
         want = expect_new(c[0], c[1], c[2], c[4])
         got = bool(lines) and lines[0] == 'NEW ok'
         if rc != 0 or want != got or 'BUG' in out:
-            bug = next((l for l in lines if 'BUG' in l), None) or ('cds_lfht_new returned %s for init=%d min=%d max=%d mm=%s, expected %s' % ('a table' if got else 'NULL', c[0], c[1], c[2], c[4], 'a table' if want else 'NULL') if want != got else 'probe exited with %d: %s' % (rc, out[-200:]))
+            bug = next((l for l in lines if 'BUG' in l), None) or ('cds_lfht_new returned %s for init=%d min=%d max=%d mm=%s, expected %s' % ('a table' if got else 'NULL', c[0], c[1], c[2], c[4], 'a table' if want else 'NULL') if want != got and rc == 0 else 'probe exited with %d: %s' % (rc, out[-300:]))
             ctx.fail('oracle', 'sequential hash-table probe', bug, concrete={'probe': 'harness/seqdiff/lfht_seq.c', 'args': cmd[1:], 'verdict': bug}); continue
         if not got: continue
         if model:
